@@ -340,6 +340,11 @@ func compareTextTable(x *X, prop string, g *TGrid, dc DecorChoice, tags []string
 		x.FailSite(prop+".no_panic", append(tags, "panic"), site, "text render panicked: %v; decoration %s; table %s", val, dc.Name, g)
 		return
 	}
+	judgeTextTable(x, prop, g, dc, tags, out, err)
+}
+
+// judgeTextTable applies the reference comparison to an output obtained for the table described by g.
+func judgeTextTable(x *X, prop string, g *TGrid, dc DecorChoice, tags []string, out string, err error) {
 	x.Clause(prop + ".succeeds")
 	if err != nil {
 		x.Fail(prop+".succeeds", tags, "text render failed: %v; decoration %s; table %s", err, dc.Name, g)
